@@ -77,6 +77,8 @@ def _shrink(mod, case, still_bad, budget=400):
 
 
 def run(prop, tier, seed, replay=None):
+    import logging
+    logging.disable(logging.CRITICAL)
     mod = importlib.import_module(f"harness.props.{prop.lower()}")
     ctx = lib.Ctx(prop, tier, seed)
     known = [k for k in lib.load_known() if k.get("property") == prop]
